@@ -48,9 +48,9 @@ import (
 // iteration/key/salt parameters) and are embedded below as constants (the
 // binary cannot run inside the bubble); "pbkdf2" records are minted by the
 // scenario with plan-chosen salt/iterations/key length following the format
-// documented in galene.md.  Degenerate but well-formed records are not
-// judged: a pbkdf2 record with an empty key (galenectl -key 0) matches every
-// password by construction.
+// documented in galene.md.  A pbkdf2 record with an empty key (what
+// galenectl -key 0 produced) is a malformed record like the others: it must
+// never let anybody in (it used to match every password: fixed in /repo).
 //
 // Check ids: C08.accepted-wrong-password C08.refused-right-password
 // C08.wildcard-shadow C08.empty-type-matched C08.malformed-accepted
@@ -107,6 +107,7 @@ var lgToolPool = []struct{ PW, JSON string }{
 var lgBadKinds = []string{
 	"pbkdf2-nokey", "pbkdf2-badhex", "pbkdf2-oddhex", "pbkdf2-badsalt", "pbkdf2-sha1", "pbkdf2-nohash",
 	"bcrypt-nokey", "bcrypt-garbage", "bcrypt-plainkey", "unknown-type", "plain-nokey", "type-case",
+	"pbkdf2-emptykey", // what galenectl hash-password -type pbkdf2 -key 0 used to produce: a derived key of length 0
 }
 
 var lgRoles = []string{"present", "op", "message", "observe", "caption", "admin"}
@@ -681,6 +682,8 @@ func lgPwJSON(p lgPw) (any, bool) {
 		switch p.Bad {
 		case "pbkdf2-nokey":
 			return map[string]any{"type": "pbkdf2", "hash": "sha-256", "salt": "0102", "iterations": 2}, true
+		case "pbkdf2-emptykey":
+			return map[string]any{"type": "pbkdf2", "hash": "sha-256", "key": "", "salt": "0102", "iterations": 2}, true
 		case "pbkdf2-badhex":
 			return map[string]any{"type": "pbkdf2", "hash": "sha-256", "key": "zz" + good[2:], "salt": "0102", "iterations": 2}, true
 		case "pbkdf2-oddhex":
